@@ -19,6 +19,18 @@ CLAIMED = {
  "C09": ("invariant hook on ToArgs.found_index + post-condition on every to_code_data call with first-use ranks from dis and removal experiments through the real encoder",
          "Every override in decoded data is compared with the entry's first-use rank recomputed from dis; an override sitting at its rank is only accepted if removing it from all uses makes the real encoder produce a different code object (or fail); additional args must be exactly the unreferenced table entries.",
          "At most 24 removal experiments per code object; ranks use the property's seeding rule (parameters, docstring first).", "5/C09"),
+ "C07": ("runtime post-condition monitor on code_data_to_json (strict-JSON walk + in-process schema validation), real json text cycle, and offline validation of every recorded document by jsonschema (Draft 7 + 2020-12), fastjsonschema and an orjson cycle",
+         "Every decoded and normalized CodeData of the workloads (corpus programs plus W9: constants over type x nesting x edge values planted as operands, unreferenced constants, docstring, filename, name, global/local/cell/free variable names) is serialized under the monitor, dumped with allow_nan=False as ASCII and UTF-8 text, parsed, loaded and compared (==, NaN-identifying strict code comparison); all documents are re-validated offline by three independent JSON/schema implementations.",
+         "Trusts json/orjson/jsonschema/fastjsonschema; ints bounded at 4000 digits; jsonschema (slow) only sees documents below a size cap, fastjsonschema and the in-process validator see all.", "5/C07"),
+ "C08": ("pool monitor over values produced by different routes (decode, decode of an identity-fresh marshal clone, JSON load, deepcopy, normalize, hand construction) checking the algebraic laws of ==/hash pairwise and Constant equality against ctypes _PyCode_ConstantKey",
+         "All pairs within buckets: symmetry, != consistency, a==b => hash equal, set/dict lookup, transitivity over the CPython-distinct families, Constant equality == CPython's constant partition with NaNs identified, equal CodeData => identical to_code(), identical code => equal decoded data, frozen-ness probes (setattr/delattr/new attribute must raise; only immutable containers reachable).",
+         "Reference partition for NaN-containing values is an own structural comparison (the exception stated by the property); pair buckets are bounded.", "5/C08"),
+ "C11": ("runtime post-condition monitors on to_flags_data (all subsets of the 18 CPython-defined flags; unknown bits alone, mixed, and after IntFlag materialisation) and on to_code_data for hand-altered headers",
+         "Flag words: every subset of the interpreter's 18 named flags is pushed through to_flags_data under a monitor requiring exact re-encoding and no exception (exhaustive on every interpreter in the thorough tier; in the quick tier exhaustive on 3.9/3.10 and every 8th subset on 3.7/3.8 where enum._decompose is quadratic); words with an unknown bit must raise or re-encode exactly. Headers: ~40 base code objects x (each of 32 flag bits toggled, flag pairs, argument counts and nlocals +-1/+2): from_code must raise or return data whose to_code() reproduces every header field.",
+         "Known flags are taken from dis.COMPILER_FLAG_NAMES and __future__ of the running interpreter, not from the library's enum; headers CPython refuses to construct are skipped.", "5/C11"),
+ "C12": ("pre/post snapshot monitors on the five API methods + history driver that repeats and interleaves calls on shared arguments and clobbers returned/consumed JSON documents in place",
+         "Every monitored call compares a deep type-exact snapshot of its argument before and after; the driver applies shuffled histories over {decode, encode, normalize, to_json, from_json on the same parsed document, encode/to_json of the normal form}, compares the 1st with the n-th result, mutates every list/dict of returned and of consumed documents and re-fingerprints the CodeData.",
+         "Code objects are immutable from Python and only snapshotted at depth 0.", "5/C12"),
  "C13": ("runtime post-condition monitor on every to_code_data call; jump-target set recomputed from dis only",
          "For every decoded code object: no empty block, concatenation equals the dis instruction sequence, jump targets in range, block start offsets == {0} + jump targets (exact set equality), every later block targeted by a decoded jump.",
          "Trusts dis for jump targets.", "5/C13"),
